@@ -70,6 +70,7 @@ func c17Bytes(s string) string {
 }
 
 func genC17() {
+	runGen("c17guards", genC17Guards)
 	_, fv := parseFile("config/var.go")
 	e := c17ConstExpr(fv, "CheckpointKeyHashKey")
 	if e == nil {
